@@ -234,6 +234,81 @@ theorem kdt_first_neighbour_matched (D : List (List Dist)) (inds : List (List Na
   have hinv := Inv_runCols uniqueInds_occSound inds.length (indsAt inds) (dAt D) K
   exact ⟨x, mem_zip_of_mark hinv hxlt hmark (by omega) hxv hv, hxv, closest_min hx r hmem⟩
 
+/-! ## K = 1 (with any bound) and the direction of the K-nearest clause -/
+
+/-- **K = 1, complete specification** (the query squeezes its output to vectors there; the model, like the
+    repaired code, works on one column): a pair `(x, y)` is returned exactly when `y` is a real row of `y`, it
+    is the (single) reported neighbour of row `x`, and `x` is the closest claimant of `y` — the first row at
+    the smallest reported distance among the rows whose neighbour is `y`.  Every other row is omitted. -/
+theorem kdt_K1_spec (D : List (List Dist)) (inds : List (List Nat)) (ny x y : Nat) :
+    (x, y) ∈ (kdtMatch D inds ny 1).1.zip (kdtMatch D inds ny 1).2 ↔
+      x < inds.length ∧ indsAt inds x 0 = y ∧ y < ny ∧
+        claimant inds.length (indsAt inds) (dAt D) 0 y = some x := by
+  rw [kdt_matched_iff]
+  constructor
+  · rintro ⟨hx, c, hm, _, hv, hy⟩
+    have hc := M_lt hm
+    rw [runCols_length] at hc
+    have hc0 : c = 0 := by omega
+    subst hc0
+    obtain ⟨_, hcl, _, _⟩ := (kdt_marks_greedy D inds (by omega : 0 < 1) x).mp hm
+    rw [hv] at hcl
+    exact ⟨hx, hv, hy, hcl⟩
+  · rintro ⟨hx, hv, hy, hcl⟩
+    refine ⟨hx, 0, ?_, by omega, hv, hy⟩
+    refine (kdt_marks_greedy D inds (by omega : 0 < 1) x).mpr ⟨hx, by rw [hv]; exact hcl, ?_, ?_⟩
+    · intro c' r' h; omega
+    · intro c' h; omega
+
+/-- **K = 1 with a distance bound, in the property's words** (relative to the query oracle's contract): for
+    every returned pair `(x, y)`, `y` is A NEAREST row of `y` to `x` — no row of `y` is strictly closer — and
+    the pair is not farther apart than the bound, finite or not. -/
+theorem kdt_K1_nearest_within_bound {D : List (List Dist)} {inds : List (List Nat)} {ny : Nat} {bound : Dist}
+    (dist : Nat → Nat → Rat) (h : WFQuery D inds ny 1 bound) (hk : KNNContract dist D inds ny 1) :
+    ∀ p ∈ (kdtMatch D inds ny 1).1.zip (kdtMatch D inds ny 1).2,
+      dle (some (dist p.1 p.2)) bound = true ∧ ∀ y', y' < ny → dist p.1 p.2 ≤ dist p.1 y' := by
+  intro p hp
+  obtain ⟨hb, hnear⟩ := kdt_among_K_nearest dist h hk p hp
+  refine ⟨hb, fun y' hy' => ?_⟩
+  apply Rat.not_lt.mp
+  intro hlt
+  have := hnear [y'] (by simp) (by intro z hz; simp at hz; subst hz; exact ⟨hy', hlt⟩)
+  simp at this
+
+/-- **The K-nearest clause is one-sided.**  `kdt_among_K_nearest` says the matched row of `y` is among the K
+    nearest rows of `y` to ITS partner in `x`; the converse direction is NOT a property of the pairing: on a
+    well-formed query that meets the oracle contract (x = 0, 9, 11 and y = 5, 11.4 on a line, K = 1, bound 6)
+    the pair (x₀, y₀) is returned although K other rows of `x` (x₁) are strictly closer to y₀ than x₀ is — x₁
+    has a nearer neighbour of its own.  A check (or a change of the code) that evaluates neighbourhoods from the
+    side of `y` states something else. -/
+theorem kdt_nearest_clause_one_sided :
+    ∃ (dist : Nat → Nat → Rat) (D : List (List Dist)) (inds : List (List Nat)) (ny K : Nat) (bound : Dist),
+      WFQuery D inds ny K bound ∧ KNNContract dist D inds ny K ∧
+      ∃ p ∈ (kdtMatch D inds ny K).1.zip (kdtMatch D inds ny K).2,
+        ∃ xs : List Nat, xs.Nodup ∧ xs.length = K ∧ ∀ x' ∈ xs, x' < inds.length ∧ dist x' p.2 < dist p.1 p.2 := by
+  refine ⟨fun r j => (([[5, 57/5], [4, 12/5], [6, 2/5]] : List (List Rat))[r]!)[j]!,
+    [[some 5], [some (12/5)], [some (2/5)]], [[0], [1], [1]], 2, 1, some 6,
+    (wfCheck_iff ..).mp (by decide +kernel), ?_, (0, 0), by decide +kernel, [1], by simp, rfl, ?_⟩
+  · constructor
+    · intro r c hr hc _
+      have hr' : r = 0 ∨ r = 1 ∨ r = 2 := by simp at hr; omega
+      have hc' : c = 0 := by omega
+      subst hc'
+      rcases hr' with rfl | rfl | rfl <;> rfl
+    · intro r c y' hr hc _ hy' hno
+      have hr' : r = 0 ∨ r = 1 ∨ r = 2 := by simp at hr; omega
+      have hc' : c = 0 := by omega
+      subst hc'
+      have hy'' : y' = 0 ∨ y' = 1 := by omega
+      rcases hr' with rfl | rfl | rfl <;> rcases hy'' with rfl | rfl <;>
+        first
+          | exact absurd rfl (hno 0 (by omega))
+          | decide +kernel
+  · intro x' hx'
+    simp at hx'
+    subst hx'
+    exact ⟨by decide, by decide +kernel⟩
+
 /-- The same loop with the occurrence lookup of the pinned code (`_unique_inds` returning positions in
     the sorted copy, defect D13) is NOT one-to-one, on a well-formed query result:
     x = [0, 1, 1], y = [2], K = 2, bound 1.5 matches row 0 of y to rows 1 and 2 of x. -/
@@ -276,5 +351,11 @@ example : KNNContract demoDist [[some 0, some 1], [some 1, some 3]] [[0, 1], [2,
         | (show demoDist _ _ ≤ demoDist _ _; decide +kernel)
 
 example : kdtMatch [[some 0, some 1], [some 1, some 3]] [[0, 1], [2, 1]] 3 2 = ([0, 1], [0, 2]) := by decide +kernel
+
+-- K = 1 with a finite bound: the hypotheses of `kdt_K1_nearest_within_bound` are met by the table of
+-- `kdt_nearest_clause_one_sided`, whose pairing is (x₀, y₀), (x₂, y₁); x₁ is omitted (its neighbour went to a closer claimant)
+example : kdtMatch [[some 5], [some (12/5)], [some (2/5)]] [[0], [1], [1]] 2 1 = ([0, 2], [0, 1]) := by decide +kernel
+example : WFQuery [[some 5], [some (12/5)], [some (2/5)]] [[0], [1], [1]] 2 1 (some 6) :=
+  (wfCheck_iff ..).mp (by decide +kernel)
 
 end C17
